@@ -5,7 +5,7 @@
 WT=/tmp/fixcheck-wt
 git -C /repo worktree remove --force $WT 2>/dev/null
 git -C /repo worktree add -q --detach $WT HEAD || exit 2
-while read commit prop rule; do
+while read commit prop rule tier; do
   [ -z "$commit" ] && continue
   git -C $WT reset -q --hard HEAD
   ok=1
@@ -14,7 +14,7 @@ while read commit prop rule; do
     git -C $WT revert --no-commit $c1 >/dev/null 2>&1 || { git -C $WT revert --abort >/dev/null 2>&1; git -C $WT reset -q --hard HEAD; git -C /repo show $c1 -- . | git -C $WT apply -R 2>/dev/null || ok=0; }
   done
   if [ $ok = 0 ]; then echo "$commit $prop: cannot revert"; continue; fi
-  out=$(/verif/bin/pqverif -prop $prop -tier quick -repo $WT -evidence /tmp/fixcheck-ev -known /verif/known_findings.json 2>&1)
+  out=$(/verif/bin/pqverif -prop $prop -tier ${tier:-quick} -repo $WT -evidence /tmp/fixcheck-ev -known /verif/known_findings.json 2>&1)
   if echo "$out" | grep -q "rule=$rule"; then echo "$commit $prop: reverted fix is reported by $rule"; else echo "$commit $prop: NOT reported by $rule"; fi
 done <<LIST
 ffc1b5e C13 C13.provenance
@@ -54,6 +54,8 @@ d7c8347 C18 C18.fileid
 508f87a C17 C17.reset
 200dc39 C07 C07.strategies
 e6f927d C16 C16.destreads
+ae28e34 C03 C03.nullwidth thorough
+550d93b C05 C05.nanbounds
 LIST
 git -C /repo worktree remove --force $WT
 rm -rf /tmp/fixcheck-ev
